@@ -133,10 +133,12 @@ def step (_ : Unit) (line : String) : Unit × String :=
         | "remove" =>
           let r := toRemoveNode1 ltF o.g o.nd o.p n1
           let cav := r.trace.filterMap fun (n, v) => if v = Verdict.cavity then some n else none
-          let age := 2 * (r.trace.filter fun (_, v) => v = Verdict.notLocal true).length
+          -- the harness sums the ages of the vertices that are still valid: node1's share is gone after a collapse
+          let bumps := (r.trace.filter fun (_, v) => v = Verdict.notLocal true).length
+          let gone := r.actual.isSome && r.status = Status.ok
+          let age := if gone then bumps else 2 * bumps
           let act : Int := match r.actual with | some a => a | none => -1
-          fmtAfter r.status act (!(r.actual.isSome && r.status = Status.ok)) cav age r.grid
-        | "judge" => "ok " ++ verdictName (judge o.g o.nd o.p n0 n1)
+          fmtAfter r.status act (!gone) cav age r.grid
         | _ => "bad-op"
   ((), r)
 
